@@ -2,6 +2,7 @@ import NixModel.Lemmas.C18Inside
 import NixModel.Lemmas.C18Inv
 import NixModel.Lemmas.C18Names
 import NixModel.Lemmas.C18Content
+import NixModel.Lemmas.C18History
 
 /-! what every run keeps — for every file (no `Clean` hypothesis), every list of steps, failing steps included -/
 namespace Nix.Upgrade.Lemmas
@@ -291,5 +292,40 @@ theorem prefix_failure_is_interruption {lib : List Nat} {r : Nat} : ∀ (k : Nat
           rw [hc, List.take_succ_cons, runSteps_cons, hs]
           rw [hc'] at hij
           exact hij
+
+/-- resuming after an interruption, whether or not the interrupted run was refused on the way -/
+theorem resume_total {lib : List Nat} {r1 r2 r3 : Nat} (k : Nat) {f : File} (hwf : WF f) :
+    (upgrade lib r2 (interrupt lib r1 k f).1).1.erase = (upgrade lib r3 f).1.erase ∧
+    (upgrade lib r2 (interrupt lib r1 k f).1).2 = (upgrade lib r3 f).2 ∧ WF (interrupt lib r1 k f).1 := by
+  cases hi : interrupt lib r1 k f with
+  | mk g e =>
+    cases e with
+    | none =>
+      have := resume_erase (lib := lib) (r1 := r1) (r2 := r2) (r3 := r3) k hwf (by rw [hi])
+      rw [hi] at this
+      exact ⟨this.1, this.2, interrupt_wf hwf hi⟩
+    | some e =>
+      obtain ⟨j, _, hj⟩ := prefix_failure_is_interruption k f g e hwf hi
+      have := resume_erase (lib := lib) (r1 := r1) (r2 := r2) (r3 := r3) j hwf (by rw [hj])
+      rw [hj] at this
+      exact ⟨this.1, this.2, interrupt_wf hwf hj⟩
+
+/-- invocations `r, r+1, …`, the `i`-th interrupted before its `kᵢ`-th step or refused earlier; the next one is
+started on whatever was left -/
+def runHistoryAny (lib : List Nat) : Nat → File → List Nat → File
+  | _, f, [] => f
+  | r, f, k :: ks => runHistoryAny lib (r + 1) (interrupt lib r k f).1 ks
+
+theorem history_any_resume {lib : List Nat} {r2 r3 : Nat} : ∀ (ks : List Nat) (r : Nat) {f : File}, WF f →
+    (upgrade lib r2 (runHistoryAny lib r f ks)).1.erase = (upgrade lib r3 f).1.erase ∧
+    (upgrade lib r2 (runHistoryAny lib r f ks)).2 = (upgrade lib r3 f).2 := by
+  intro ks
+  induction ks with
+  | nil => intro r f _; exact upgrade_erase_congr r2 r3 f
+  | cons k ks ih =>
+    intro r f hwf
+    obtain ⟨h1, h2, hwf1⟩ := resume_total (lib := lib) (r1 := r) (r2 := r3) (r3 := r3) k hwf
+    obtain ⟨g1, g2⟩ := ih (r + 1) hwf1
+    exact ⟨g1.trans h1, g2.trans h2⟩
 
 end Nix.Upgrade.Lemmas
